@@ -142,8 +142,9 @@ def _flat(state, prefix="self"):
     return out
 
 
-# traces the UNCHANGED code leaves after a rejected call (recorded in the evidence and reported, not flagged)
-KNOWN_TRACES = {("Chain", "self.region_")}
+# traces the UNCHANGED code leaves after a rejected call (recorded in the evidence and reported, not flagged).
+# Empty since 2e7f689 (finding F24: Chain.fit assigns region_ only after every step has been fitted).
+KNOWN_TRACES = set()
 
 
 def no_trace_cases(vd, rnd, tier, extra):
